@@ -35,6 +35,9 @@ def stream(rep, pid, tier, perms):
     for v in ((8, 9) if tier == "thorough" else (8,)):
         vlib.stream_cases(rep, pid, "MC_C07", "MC_C07_restricted%d.cfg" % v, cpath, part="mc_room_restricted%d" % v, append=True,
                           heap="16g", stack="1g", timeout=5400)
+    # one sender with different power levels on the two branches of a fork (per-event, not per-sender, power in the power ordering)
+    vlib.stream_cases(rep, pid, "MC_C07", "MC_C07_powerfork2.cfg" if tier == "thorough" else "MC_C07_powerfork.cfg", cpath,
+                      part="mc_room_powerfork", append=True, heap="16g", stack="1g", timeout=5400)
     # de-duplicate merges (the same merge is pending in many states)
     seen = set()
     upath = os.path.join(wd, "cases_unique.ndjson")
